@@ -404,14 +404,13 @@ def check_delay(P: C.Part, s: Dict[str, Any], res, x: np.ndarray, y: np.ndarray,
                  {**sigb, "sub": "delay"}, s, backend, {"bin": j, "observed": complex(H[j]), "expected": target, "tol": tol})
             continue
         # the SIGN: where the bound separates −φ from +φ, a lagging output must have negative phase
-        pm = wrap(phi)
         if 0.2 <= phi <= 2.5 and tol < 0.9 * math.sin(phi):
             P.nontrivial.add(("delay", o["scheduler"], order, o["win"], backend, d, L))
             P.hit("delay.sign-decisive")
             if not (H[j].imag < 0 and float(rad[j]) < 0 and float(deg[j]) < 0):
                 viol(P, f"{backend}: lagging output (d={d}, 2*pi*f*d/fs={phi:.3f}) but phase is not negative: Im Hxy={H[j].imag!r}, cf_rad={rad[j]!r}",
                      {**sigb, "sub": "sign"}, s, backend, {"bin": j})
-            elif not abs(wrap(float(rad[j]) - pm)) <= 1.6 * tol + 8 * U:
+            elif not abs(wrap(float(rad[j]) + phi)) <= 1.6 * tol + 8 * U:
                 viol(P, f"{backend}: cf_rad[{j}]={rad[j]!r} but -2*pi*f*d/fs={-phi!r} (bound {1.6 * tol:.3g})", {**sigb, "sub": "phase"}, s, backend, {"bin": j})
 
 
@@ -463,7 +462,7 @@ def run_spec(P: C.Part, s: Dict[str, Any], backends: List[str], cuda: Optional[C
             with warnings.catch_warnings():
                 warnings.simplefilter("ignore")
                 _an.analyzer(data, s["fs"], **s["o"]).plan()
-        except Exception as ex:
+        except (Exception, SystemExit) as ex:          # some schedulers call sys.exit() on an empty plan
             P.hit("plan-raised(skipped)")
             P.notes.append(f"plan raised for {short(s)}: {ex!r}"[:160]) if len(P.notes) < 4 else None
             return
